@@ -4,7 +4,7 @@
 name="$1"; patch="$2"; shift; shift
 d=/tmp/mutrepo_$name
 rm -rf "$d"; git -C /repo worktree prune; git -C /repo worktree add -q --detach "$d" HEAD || exit 2
-git -C "$d" apply "$patch" || { echo "patch does not apply"; git -C /repo worktree remove --force "$d"; exit 2; }
+git -C "$d" apply "$patch" 2>/dev/null || git -C "$d" apply --3way "$patch" || { echo "patch does not apply"; git -C /repo worktree remove --force "$d"; exit 2; }
 cd /verif
 for p in "$@"; do
   echo "== $name $p"
